@@ -28,7 +28,7 @@ def cfg_consts(cfg):
     """Read the constants the harness has to agree on out of a .cfg file."""
     s = open(os.path.join(verif.SPEC, FAMILY, cfg)).read()
     out = {}
-    for k in ("Retention", "T", "N", "NI", "MaxClock", "InboxCap", "ObsoleteTimeout"):
+    for k in ("Retention", "T", "N", "NI", "NK", "MaxClock", "InboxCap", "ObsoleteTimeout"):
         m = re.search(r"^\s*%s\s*=\s*(\d+)" % k, s, re.M)
         out[k] = int(m.group(1))
     return out
@@ -107,7 +107,7 @@ def _record(ctx, tag, ntraces, steps, timeout, domain="ring"):
     k = cfg_consts("GossipKVTrace.cfg")
     tr = ctx.path("trace_%s.ndjson" % tag)
     res = ctx.run_harness("c06", "^TestRecord$", timeout=timeout, env={
-        "VERIF_TRACE": tr, "VERIF_NTRACES": ntraces, "VERIF_STEPS": steps, "VERIF_N": k["N"], "VERIF_NI": k["NI"],
+        "VERIF_TRACE": tr, "VERIF_NTRACES": ntraces, "VERIF_STEPS": steps, "VERIF_N": k["N"], "VERIF_NI": k["NI"], "VERIF_NK": k["NK"],
         "VERIF_RETENTION": k["Retention"], "VERIF_T": k["T"], "VERIF_MAXCLOCK": k["MaxClock"],
         "VERIF_INBOXCAP": k["InboxCap"], "VERIF_OBSOLETE": k["ObsoleteTimeout"], "VERIF_DOMAIN": domain})
     if res.get("fatal"):
